@@ -44,7 +44,7 @@ def find_span_binsearch(degree, knot_vector, num_ctrlpts, knot, **kwargs):
     n = num_ctrlpts - 1
     if abs(knot_vector[n + 1] - knot) <= tol:
         # At the end of the domain the parameter belongs to the last non-empty knot interval
-        while n > degree and knot_vector[n] == knot_vector[n + 1]:
+        while n > degree and not knot_vector[n] < knot_vector[n + 1]:
             n -= 1
         return n
 
@@ -92,8 +92,9 @@ def find_span_linear(degree, knot_vector, num_ctrlpts, knot, **kwargs):
         span += 1
 
     # At the end of the domain the parameter belongs to the last non-empty knot interval
-    while span - 1 > degree and knot_vector[span - 1] == knot_vector[span]:
-        span -= 1
+    if span == num_ctrlpts:
+        while span - 1 > degree and not knot_vector[span - 1] < knot_vector[span]:
+            span -= 1
 
     return span - 1
 
